@@ -10,16 +10,16 @@
    tombstone restored): whatever order the encoder lists the members in (it
    ranges over a Go map), the rebuilt table has the same members, tombstones,
    positions and links and shows the same values; and a replica that loads the
-   snapshot and then applies later Sets shows what the replica that kept its
+   snapshot and then applies later Sets and Removes shows what the replica that kept its
    state shows.  The hypotheses (distinct ids; the linked member is the newest
    of its key; every member's key is linked) are proved for every table built
-   by Sets, and checked on every table the erht engine reaches.
+   by Sets and Removes, and checked on every table the erht engine reaches.
    PARTIAL: the byte codec itself, arrays with moved elements (finding P13),
    text, tree and the server rebuild are decided by the differential oracle of
    the hist engine (snapshot-fed clients and server rebuilds vs a replica that
    applied every change). *)
 From Coq Require Import List Permutation.
-From YV Require Import Crdt.ElemRHT Crdt.RGAList Proofs.ERHTProofs Proofs.RGAProofs Proofs.ERHTCommute Proofs.ERHTDecode.
+From YV Require Import Crdt.ElemRHT Crdt.RGAList Proofs.ERHTProofs Proofs.RGAProofs Proofs.ERHTCommute Proofs.ERHTDecode Proofs.ERHTRemove.
 
 Theorem C02_object_members_well_formed : forall h k id val,
   rht_wf h -> nget (nodes h) id = None ->
@@ -73,3 +73,18 @@ Theorem C02_tables_built_by_sets_qualify : forall ops h,
   rht_wf (fold_left apply_sop ops h) /\ built_inv (fold_left apply_sop ops h).
 Proof. exact sets_built. Qed.
 Print Assumptions C02_tables_built_by_sets_qualify.
+
+(* objects: snapshot, then later Sets and Removes = every change one by one *)
+Theorem C02_object_snapshot_then_ops : forall h l ops,
+  rht_wf h -> built_inv h -> Permutation l (nodes h) ->
+  all_fresh_o h ops -> NoDup (set_ids ops) ->
+  forall k, view (fold_left apply_oop ops (rht_decode l)) k = view (fold_left apply_oop ops h) k.
+Proof. exact snapshot_then_ops. Qed.
+Print Assumptions C02_object_snapshot_then_ops.
+
+(* the hypotheses hold for every table built by Sets and Removes *)
+Theorem C02_tables_built_by_ops_qualify : forall ops h,
+  rht_wf h -> built_inv h -> all_fresh_o h ops -> NoDup (set_ids ops) ->
+  rht_wf (fold_left apply_oop ops h) /\ built_inv (fold_left apply_oop ops h).
+Proof. exact ops_built. Qed.
+Print Assumptions C02_tables_built_by_ops_qualify.
